@@ -14,7 +14,7 @@ import (
 // grouping, polarity, operator, evaluation order and short-circuiting are all
 // compared against the generator's own expression tree.
 
-const numCondPositions = 10
+const numCondPositions = 13
 
 // condProgram places cond in condition position pos.
 func condProgram(cond *model.Cond, pos int) *model.Script {
@@ -37,6 +37,12 @@ func condProgram(cond *model.Cond, pos int) *model.Script {
 		st = model.Stmt{Kind: model.SIf, Arms: []model.Arm{{Cond: guard(1), Body: []model.Stmt{cmd("g1")}}, {Cond: guard(2), Body: []model.Stmt{cmd("g2")}}, {Cond: cond, Body: []model.Stmt{cmd("t")}}}, HasElse: true, Else: []model.Stmt{cmd("f")}}
 	case 5: // while
 		st = model.Stmt{Kind: model.SWhile, Cond: cond, Body: []model.Stmt{cmd("t")}}
+	case 10: // the first operand test of the condition is repeated as the elif condition
+		st = model.Stmt{Kind: model.SIf, Arms: []model.Arm{{Cond: cond, Body: []model.Stmt{cmd("t")}}, {Cond: firstLeafCopy(cond), Body: []model.Stmt{cmd("g1")}}}, HasElse: true, Else: []model.Stmt{cmd("f")}}
+	case 11: // ... or stands first in the if condition, with the whole condition as elif (same operand, same value, tested again)
+		st = model.Stmt{Kind: model.SIf, Arms: []model.Arm{{Cond: &model.Cond{Kind: model.CAnd, L: firstLeafCopy(cond), R: guard(1)}, Body: []model.Stmt{cmd("g1")}}, {Cond: cond, Body: []model.Stmt{cmd("t")}}}, HasElse: true, Else: []model.Stmt{cmd("f")}}
+	case 12: // ... or is tested again inside the loop body
+		st = model.Stmt{Kind: model.SWhile, Cond: cond, Body: []model.Stmt{{Kind: model.SIf, Arms: []model.Arm{{Cond: firstLeafCopy(cond), Body: []model.Stmt{cmd("t")}}}}, cmd("u")}}
 	case 7: // middle elif with an empty body, no else: the condition still guards the later elif
 		st = model.Stmt{Kind: model.SIf, Arms: []model.Arm{{Cond: guard(1), Body: []model.Stmt{cmd("g1")}}, {Cond: cond, Body: nil}, {Cond: guard(2), Body: []model.Stmt{cmd("g2")}}}}
 	case 8: // if with an empty body, then elif
@@ -303,7 +309,16 @@ func runC02(tier string) int {
 	r.Assume("the generator's own expression tree is the reference (no parsing on the oracle side); '!' > '&&' > '||', left to right, short-circuit",
 		"lockstep: each operand read (which flag/var/trainer, strict or not) is an observable event; the environment answers with the operand's value and each side applies its own relation")
 	return r.Finish(r.Get("evaluations"), r.Get("nontrivial"),
-		"every And/Or tree with k leaves x decorations (redundant parentheses / negations on any node, bounded count) x leaf-form assignments (all 30 forms exhaustively for k<=2, rotations beyond, shared-operand variants for k<=3) x 10 condition positions (if, if/else, elif positions, while, do...while, and branches with an empty body) x optimize on/off; plus chains of K leaves for every K up to the bound in the coverage in 5 operator patterns; each case explored in lockstep over all operand values; non-trivial = at least 2 leaves")
+		"every And/Or tree with k leaves x decorations (redundant parentheses / negations on any node, bounded count) x leaf-form assignments (all 30 forms exhaustively for k<=2, rotations beyond, shared-operand variants for k<=3) x 13 condition positions (if, if/else, elif positions, while, do...while, branches with an empty body, and positions in which the first operand test of the expression is tested again in a neighbouring condition) x optimize on/off; plus chains of K leaves for every K up to the bound in the coverage in 5 operator patterns; each case explored in lockstep over all operand values; non-trivial = at least 2 leaves")
+}
+
+// firstLeafCopy returns a fresh leaf condition equal to the first operand test evaluated by c (polarity as written in the leaf).
+func firstLeafCopy(c *model.Cond) *model.Cond {
+	for c.Kind != model.CLeaf {
+		c = c.L
+	}
+	lf := *c.Leaf
+	return &model.Cond{Kind: model.CLeaf, Leaf: &lf}
 }
 
 func sharedLeaf(form, i int) *model.Leaf {
